@@ -1,0 +1,21 @@
+//go:build !verif
+// +build !verif
+
+package jsonpath
+
+import "sort"
+
+// Verification hooks (see verif_hooks.go). With the `verif` build tag off
+// they are empty and compile away.
+
+const (
+	verifKindParse = iota
+	verifKindEval
+)
+
+func verifPoisonContainer(*bufferContainer) {}
+func verifPoisonKeys(*sort.StringSlice)     {}
+func verifScrambleKeys(*sort.StringSlice)   {}
+func verifEnter(int)                        {}
+func verifExit(int)                         {}
+func verifParsed(syntaxNode)                {}
